@@ -54,17 +54,18 @@ def read_poscar(filename):
 
         # Ignore the dynamics line if available
         skip = 0
-        if "dynamics" in lines[7]:
+        if lines[7].strip().lower().startswith("s"):
             skip += 1
-        mode = lines[7 + skip].strip().lower()
+        # Only the first letter of the mode line is significant: "c" or "k" select Cartesian coordinates
+        cartesian = lines[7 + skip].strip().lower().startswith(("c", "k"))
 
         pos = np.empty((np.sum(Natom), 3))
         # Following lines contain atom positions
         for i, line in enumerate(lines[8 + skip : 8 + skip + np.sum(Natom)]):
-            if mode == "direct":
-                pos[i] = np.asarray(line.strip().split()[:3], dtype=float) @ a
-            if mode == "cartesian":
+            if cartesian:
                 pos[i] = scaling * np.asarray(line.strip().split()[:3], dtype=float)
+            else:
+                pos[i] = np.asarray(line.strip().split()[:3], dtype=float) @ a
         # Skip all the properties afterwards
 
     # POSCAR files are in Angstrom, so convert to Bohr
